@@ -14,6 +14,7 @@ LM, LP, B, T = 'src/primitives/line/mod.rs', 'src/primitives/line/points.rs', 's
 IP, LE, LJ = 'src/primitives/line/intersection_params.rs', 'src/primitives/common/linear_equation.rs', 'src/primitives/common/line_join.rs'
 TR, TM, TT = 'src/primitives/triangle/mod.rs', 'src/text/mod.rs', 'src/text/text.rs'
 IR, CO = 'src/image/image_raw.rs', 'src/iterator/contiguous.rs'
+MT = 'src/mono_font/mono_text_style.rs'
 
 MODEL = {
     (P, 'Point::abs'): 'point_abs_ok', (P, 'Point::sub_size'): 'point_sub_size_ok',
@@ -72,6 +73,10 @@ MODEL = {
     (IR, 'ImageDrawable for ImageRaw::draw'): 'image_draw_ok', (IR, 'ImageDrawable for ImageRaw::draw_sub_image'): 'image_draw_sub_ok',
     (IR, 'GetPixel for ImageRaw::pixel'): 'image_pixel_ok', (IR, 'ContiguousPixels::new'): 'cpix_new_ok',
     (IR, 'Iterator for ContiguousPixels::next'): 'cpix_next_ok',
+    (MT, 'MonoTextStyle::line_elements'): 'line_elements_ok', (MT, 'MonoTextStyle::baseline_offset'): 'baseline_offset_ok',
+    (MT, 'TextRenderer for MonoTextStyle::draw_string'): 'draw_string_plain_ok (and line_elements_ok)',
+    (MT, 'TextRenderer for MonoTextStyle::draw_whitespace'): 'draw_whitespace_ok',
+    (MT, 'TextRenderer for MonoTextStyle::measure_string'): 'measure_string_ok',
     (CO, 'Cropped::new'): 'cropped_new_ok', (CO, 'Iterator for Cropped::next'): 'cropped_next_ok',
 }
 
